@@ -193,6 +193,7 @@ void drive(const ShapeDesc& sd, RunCtl& ctl, RunState& rs, const std::function<v
   }
   // snapshot of the model for the end-of-run oracles
   ctl.out.model_done = m.done; ctl.out.model_result = m.result; ctl.out.model_ctx = m.result_ctx;
+  ctl.out.allocate_started.clear(); for (auto& kv : m.allocate_started) ctl.out.allocate_started[kv.first] = kv.second;
   if (g_compare && !g_diverged) {
     // function invocation counts: "run their function exactly when the predecessor completes on the matching channel"
     for (int i = 0; i < sd.nnodes; ++i) {
@@ -254,6 +255,25 @@ void end_run(const ShapeDesc& sd, RunCtl& ctl, RunState& rs) {
   else if (!w.live.empty()) SR_FAIL("C02", "tracked_leak", "%zu value object(s) were never destroyed (constructed %ld copied %ld moved %ld destroyed %ld) [%s]", w.live.size(), w.tracked_ctor, w.tracked_copy, w.tracked_move, w.tracked_dtor, sd.text);
   if (!w.abandoned && w.connects != w.op_destroys) SR_FAIL("C02", "child_op_leak", "%ld child operation states were created but %ld destroyed [%s]", w.connects, w.op_destroys, sd.text);
   if (rs.ledger.allocs != rs.ledger.deallocs) SR_FAIL("C02", "allocator_imbalance", "allocator: %ld allocations, %ld deallocations [%s]", rs.ledger.allocs, rs.ledger.deallocs, sd.text);
+  for (auto& l : rs.ledger_n) if (l.allocs != l.deallocs) SR_FAIL("C02", "allocator_imbalance", "allocator #%ld: %ld allocations, %ld deallocations [%s]", l.id, l.allocs, l.deallocs, sd.text);
+  { // ---- C12: allocate() takes its memory from exactly the allocator visible at that point
+    // statically: which allocator ids are visible at some allocate() node (with_allocator replaces it, any_sender_of hides it)
+    std::set<long> visible;
+    std::function<void(int, long)> walk = [&](int idx, long cur) {
+      const NodeDesc& n = sd.nodes[idx];
+      if (n.kind == K_ALLOCATE) visible.insert(cur);
+      long below = n.kind == K_WITH_ALLOC ? n.a : n.kind == K_ANY ? -1 : cur;
+      for (int i = 0; i < n.nchild; ++i) walk(n.child[i], below);
+    };
+    walk(sd.root, 1);
+    for (long id = 1; id <= 3; ++id) {
+      const sr::AllocLedger& l = id == 1 ? rs.ledger : rs.ledger_n[id - 2];
+      if (!visible.count(id) && l.allocs != 0) SR_FAIL("C12", "allocate_wrong_allocator", "allocator #%ld served %ld allocation(s) although no allocate() in the expression has it as its receiver's allocator [%s]", id, l.allocs, sd.text);
+      auto it = ctl.out.allocate_started.find(id);
+      long want = it == ctl.out.allocate_started.end() ? 0 : it->second;
+      if (g_compare && !g_diverged && !o.escaped && l.allocs < want) SR_FAIL("C12", "allocate_wrong_allocator", "%ld allocate() operation(s) ran with allocator #%ld visible through their receiver, but that allocator served only %ld allocation(s) [%s]", want, id, l.allocs, sd.text);
+    }
+  }
   // ---- C04: no registration left on the receiver's stop source once the operation is gone
   if (!rs.use_inplace && (!rs.hstop.cbs.empty() || !rs.hstop.executing.empty())) SR_FAIL("C04", "dangling_stop_callback", "%zu stop callback(s) are still registered on the receiver's stop source after the operation state was destroyed [%s]", rs.hstop.cbs.size(), sd.text);
   if (rs.inplace) { delete rs.inplace; rs.inplace = nullptr; }   // asserts "no dangling callbacks" inside libunifex
